@@ -34,6 +34,171 @@ func isInitFn(f *ssa.Function) bool {
 	return false
 }
 
+// execCtx says when a function can run and which Once guards every way of
+// reaching it.
+type execCtx struct {
+	any    bool // can run at any time (exported, a method, address taken, or called from such code)
+	init   bool // can run during package initialisation
+	root   bool // an entry point: guarded by nothing
+	top    bool // guards not yet constrained (no incoming edge seen)
+	guards map[*ssa.Global]bool
+}
+
+// initOnly: the function runs during package initialisation only (or never).
+func (c *execCtx) initOnly() bool { return c != nil && !c.any }
+
+// singleOnce returns the Once whose Do every path to the function passes
+// through, for a function that can run after initialisation.
+func (c *execCtx) singleOnce() *ssa.Global {
+	if c == nil || !c.any || c.top || len(c.guards) != 1 {
+		return nil
+	}
+	for g := range c.guards {
+		return g
+	}
+	return nil
+}
+
+// execContexts computes, for every prism function, when it can run: the
+// package initialisers run at init; a function passed to Do of a package-level
+// Once runs under that Once; a function called statically inherits the contexts
+// of its callers; anything exported, any method, and any function whose value
+// is used other than as a callee or as the argument of Once.Do can run anywhere.
+func execContexts(p *Program) map[*ssa.Function]*execCtx {
+	ctx := map[*ssa.Function]*execCtx{}
+	get := func(f *ssa.Function) *execCtx {
+		c := ctx[f]
+		if c == nil {
+			c = &execCtx{guards: map[*ssa.Global]bool{}}
+			ctx[f] = c
+		}
+		return c
+	}
+	fns := p.SrcFuncs()
+	for _, f := range fns {
+		c := get(f)
+		switch {
+		case f.Parent() != nil:
+			// closures get their context from their uses
+		case f.Name() == "init" || strings.HasPrefix(f.Name(), "init#"):
+			c.init = true
+		case f.Signature.Recv() != nil || token.IsExported(f.Name()):
+			c.any = true
+		}
+	}
+	type edge struct {
+		from, to *ssa.Function
+		once     *ssa.Global // non-nil: `to` is run by Do of this Once called in `from`
+	}
+	var edges []edge
+	for _, h := range fns {
+		for _, b := range h.Blocks {
+			for _, in := range b.Instrs {
+				var called *ssa.Function
+				if c, ok := in.(ssa.CallInstruction); ok {
+					if _, isGo := in.(*ssa.Go); !isGo {
+						called = staticCallee(c)
+					}
+				}
+				og, ocl, isDo := onceDoCall(in)
+				var ops []*ssa.Value
+				for _, op := range in.Operands(ops) {
+					if op == nil || *op == nil {
+						continue
+					}
+					var f *ssa.Function
+					switch v := (*op).(type) {
+					case *ssa.Function:
+						f = v
+					case *ssa.MakeClosure:
+						f, _ = v.Fn.(*ssa.Function)
+					}
+					if f == nil || !isPrismFn(f) {
+						continue
+					}
+					switch {
+					case isDo && f == ocl:
+						edges = append(edges, edge{h, f, og})
+					case f == called && *op == in.(ssa.CallInstruction).Common().Value:
+						edges = append(edges, edge{h, f, nil})
+					default:
+						if _, isMC := in.(*ssa.MakeClosure); isMC {
+							continue // binding a closure's free variable to a function value is covered by the closure's own uses
+						}
+						get(f).any = true
+					}
+				}
+				// a MakeClosure value: its uses decide
+				if mc, ok := in.(*ssa.MakeClosure); ok {
+					f, _ := mc.Fn.(*ssa.Function)
+					for _, u := range refs(mc) {
+						uc, isCall := u.(ssa.CallInstruction)
+						if isCall && uc.Common().Value == ssa.Value(mc) {
+							continue // counted above as a call edge
+						}
+						if _, cl, isDo := onceDoCall(u); isDo && cl == f {
+							continue
+						}
+						get(f).any = true
+					}
+				}
+			}
+		}
+	}
+	for _, f := range fns {
+		c := get(f)
+		c.root = c.any || c.init
+		c.top = !c.root
+	}
+	for changed := true; changed; {
+		changed = false
+		for _, e := range edges {
+			src := get(e.from)
+			dst := get(e.to)
+			if src.any && !dst.any {
+				dst.any, changed = true, true
+			}
+			if src.init && !dst.init {
+				dst.init, changed = true, true
+			}
+		}
+	}
+	// guards: greatest fixpoint of G(f) = ∩ over incoming edges (G(caller) ∪ {Once of a Do edge})
+	for changed := true; changed; {
+		changed = false
+		for _, e := range edges {
+			src := get(e.from)
+			dst := get(e.to)
+			if dst.root {
+				continue
+			}
+			if src.top && e.once == nil {
+				continue // caller not yet constrained
+			}
+			in := map[*ssa.Global]bool{}
+			if !src.top {
+				for g := range src.guards {
+					in[g] = true
+				}
+			}
+			if e.once != nil {
+				in[e.once] = true
+			}
+			if dst.top {
+				dst.top, dst.guards, changed = false, in, true
+				continue
+			}
+			for g := range dst.guards {
+				if !in[g] {
+					delete(dst.guards, g)
+					changed = true
+				}
+			}
+		}
+	}
+	return ctx
+}
+
 type globalAccess struct {
 	Fn    *ssa.Function
 	Instr ssa.Instruction
@@ -174,10 +339,13 @@ func runC11(p *Program, r *Report) {
 			}
 		}
 	}
+	// the execution context of every function: during package initialisation
+	// only, under Do of exactly one Once only, or anywhere
+	ctx := execContexts(p)
 	closureOnce := map[*ssa.Function]*ssa.Global{}
-	for _, s := range doSites {
-		if s.Closure != nil {
-			closureOnce[s.Closure] = s.Once
+	for _, f := range p.SrcFuncs() {
+		if o := ctx[f].singleOnce(); o != nil {
+			closureOnce[f] = o
 		}
 	}
 
@@ -186,7 +354,7 @@ func runC11(p *Program, r *Report) {
 		key := strings.TrimPrefix(g.String(), ModPath+"/")
 		var lateStores []globalAccess
 		for _, a := range acc[g] {
-			if (a.Kind == "store" || a.Kind == "elem-store") && !isInitFn(a.Fn) {
+			if (a.Kind == "store" || a.Kind == "elem-store") && !ctx[a.Fn].initOnly() {
 				lateStores = append(lateStores, a)
 			}
 		}
@@ -216,7 +384,7 @@ func runC11(p *Program, r *Report) {
 			continue
 		}
 		nLazy++
-		r.Hold("C11.O1", key+" writers", p.Pos(g.Pos()), fmt.Sprintf("written only inside the closure passed to %s.Do", once.Name()))
+		r.Hold("C11.O1", key+" writers", p.Pos(g.Pos()), fmt.Sprintf("written only by code that runs under %s.Do (the function passed to Do and what only it calls)", once.Name()))
 		// every load dominated by Do(once) in its function, or inside the closure
 		n := 0
 		for _, a := range acc[g] {
